@@ -249,17 +249,18 @@ Section P.
       specialize (Hcomplete Hlinked).
       cbn [run_batches hd tl]. unfold pref at 1. rewrite <- Hr.
       match goal with |- context [run_jobs _ _ _ ?st] => set (s1 := st) end.
-      destruct (run_jobs_complete a n (fst b) (lp_of a) o s1 _ (perm_in_b _ _ _ Hperm)) with
-        (ms := map (fun i => Some (g i)) (seq a n)) as [s2 [Hrun [_ [_ [Hn1 _]]]]];
-        try assumption.
-      + unfold s1. cbn. assumption.
-      + intros i Hi. apply Permutation_sym in Hperm. apply (Permutation_in _ Hperm), in_seq in Hi.
-        destruct (Hgood i ltac:(lia)) as [[Hpg _] Hcb]. auto.
-      + rewrite Hrun.
-        apply (IH os (a + n)%nat (m - n)%nat s2 Hwf' Hvo' Hrest).
-        * rewrite Hn1 by (apply (Permutation_in _ Hperm), in_seq; lia).
-          replace (a + n)%nat with (S (fst b)) by lia. reflexivity.
-        * intros i Hi. apply Hgood. lia.
+      assert (Hs1 : lastprev s1 = lp_of a) by (unfold s1; cbn; assumption).
+      assert (Hallo : forall i, In i o -> pre_good i /\ cb_fail i = false).
+      { intros i Hi. apply Permutation_sym in Hperm. apply (Permutation_in _ Hperm), in_seq in Hi.
+        apply Permutation_sym in Hperm.
+        destruct (Hgood i ltac:(lia)) as [[Hpg _] Hcb]. auto. }
+      destruct (run_jobs_complete a n (fst b) (lp_of a) o s1 (map (fun i => Some (g i)) (seq a n))
+                  (perm_in_b _ _ _ Hperm) Hs1 Hok Hh Hallo Hcomplete) as [s2 [Hrun [_ [_ [Hn1 _]]]]].
+      rewrite Hrun.
+      apply (IH os (a + n)%nat (m - n)%nat s2 Hwf' Hvo' Hrest).
+      + rewrite Hn1 by (apply (Permutation_in _ Hperm), in_seq; lia).
+        replace (a + n)%nat with (S (fst b)) by lia. reflexivity.
+      + intros i Hi. apply Hgood. lia.
   Qed.
 
   (* good' (internal) vs good (the specification in Model.v) *)
@@ -293,9 +294,9 @@ Section P.
     - intros [s Hrun].
       destruct (run_batches_sound size _ _ 0%nat size (init prev) s Hwf Hvo Hcc eq_refl
                   ltac:(intros; lia) Hrun) as [Hg _].
-      split; [apply good_equiv|]; intros i Hi; apply Hg; lia.
-    - intros [Hg Hcb]. apply good_equiv in Hg.
+      split; [apply (proj1 (good_equiv size))|]; intros i Hi; apply Hg; lia.
+    - intros [Hg Hcb]. pose proof (proj2 (good_equiv size) Hg) as Hg'.
       apply (run_batches_complete size _ _ 0%nat size (init prev) Hwf Hvo Hcc eq_refl).
-      intros i Hi. split; [apply Hg|apply Hcb]; lia.
+      intros i Hi. split; [apply Hg'|apply Hcb]; lia.
   Qed.
 End P.
